@@ -189,7 +189,22 @@ def check(prop, tier, seed):
     oracle_fail = []
     samples_sc = []
     if oracle is not None:
-        for sc in scen.scenarios(prop, tier, rng):
+        from fractions import Fraction as Fr
+        from itertools import chain
+        # first the inputs on which model and implementation disagree (usually the failing input)
+        dis_sc = []
+        for d in disagreements:
+            line = d.get('impl_request', d['request'])
+            if line == '-':
+                continue
+            try:
+                flds = [[Fr(t) for t in f.split()] for f in line.split('|')[1:]]
+                sc0 = scen.scenario_of_case(prop, d['op'], flds)
+            except Exception:
+                sc0 = None
+            if sc0 is not None:
+                dis_sc.append(scen.fix(sc0) if isinstance(sc0, dict) else sc0)
+        for sc in chain(dis_sc, scen.scenarios(prop, tier, rng)):
             oracle_runs += 1
             if len(samples_sc) < 2:
                 samples_sc.append(scen.enc(sc))
@@ -303,7 +318,8 @@ def replay(path):
             continue
         op = line.split('|')[0].strip()
         from fractions import Fraction as Fr
-        fields = [[Fr(t) for t in f.split()] for f in line.split('|')[1:]]
+        iline = d.get('impl_request', line)
+        fields = [[Fr(t) for t in f.split()] for f in iline.split('|')[1:]]
         m = parse_out(run_model([line])[0])
         r = adapters.run_real(op, fields)
         why = corr.compare(m, r, adapters.exact_fields(op, len(m) if not isinstance(m, str) else 0))
